@@ -74,6 +74,15 @@ func (x *Unit) evalConversion(st *State, call *ast.CallExpr, to types.Type) Val 
 	case v.Sort == SStr:
 		if es, ok := x.u.sliceElem[toS]; ok {
 			_ = es
+			if st2, ok := under(to).(*types.Slice); ok {
+				if b, ok := under(st2.Elem()).(*types.Basic); ok && b.Kind() == types.Int32 {
+					// []rune(s): between 1 and len(s) runes for a non-empty string, none for the empty one
+					r := x.define("str2runes", x.uf("str2runes", toS, v.T))
+					bl := App(SInt, "gs.len", v.T)
+					x.fact(And(Cmp("<=", x.u.SliceLen(r), bl), Cmp(">=", x.u.SliceLen(r), IntLit(0)), Imp(Cmp(">", bl, IntLit(0)), Cmp(">=", x.u.SliceLen(r), IntLit(1))), Cmp(">=", x.u.SliceCap(r), x.u.SliceLen(r))))
+					return Val{r, to}
+				}
+			}
 			r := x.define("str2bytes", x.uf("str2bytes_"+sortIdent(toS), toS, v.T))
 			x.fact(And(Eq(x.u.SliceLen(r), App(SInt, "gs.len", v.T)), Cmp(">=", x.u.SliceCap(r), x.u.SliceLen(r))))
 			return Val{r, to}
